@@ -236,6 +236,65 @@ def batch_json_ref(max_n, seed):
     return res
 
 
+def replay_afm_ref(shape, cards, code, block):
+    """AFM reference document (own emitter; optionally a feature-scoped block among the plain constraints) read by the
+    real AFMReader: well-formed tree, and every plain constraint names exactly the features written in it."""
+    import os
+    shape = totuple(shape)
+    cards = [tuple(c) for c in cards]
+    n = R.n_features(shape)
+    names = ['A', 'B', 'C', 'D', 'E', 'F', 'G'][:n]
+    trees = list(c09.AFM_CTCS[code]) if n >= 3 else []
+    expect = [R.tree_names(t) for t in trees]
+    opts = {}
+    if block and n >= 3:
+        pos = block % (len(trees) + 1)
+        opts['block'] = (pos, names[1], ('IMPLIES', 'B', 'C'))
+        expect.insert(pos, None)
+    text = c09.afm_emit(shape, cards, names, opts, trees)
+    try:
+        with rt.TempDir() as d:
+            p = os.path.join(d, 'm.afm')
+            with open(p, 'w', encoding='utf-8') as f:
+                f.write(text)
+            got = AFMReader(p).transform()
+    except Exception as exc:
+        return ['AFM reader raises %s: %s | text %r' % (type(exc).__name__, exc, text)]
+    out = []
+    if len(got.ctcs) != len(expect):
+        out.append('%d constraints read, the document has %d' % (len(got.ctcs), len(expect)))
+    for ci, c in enumerate(got.ctcs[:len(expect)]):
+        if expect[ci] is None:
+            continue       # the block: names are qualified with the block's feature, not checked here
+        if sorted(c.get_features()) != sorted(expect[ci]):
+            out.append('constraint %d: get_features() %r, the document names %r' % (ci, sorted(c.get_features()), sorted(expect[ci])))
+    plain = type(got)(got.root, [c for ci, c in enumerate(got.ctcs) if ci >= len(expect) or expect[ci] is not None])
+    out += wellformed(plain)
+    return ['%s | text %r' % (b, text) for b in out]
+
+
+def batch_afm_ref(max_n, seed):
+    import random as _r
+    rnd = _r.Random(seed)
+    res = {'instances': 0, 'nontrivial': 0, 'violations': [], 'native_runs': 0}
+    for shape in R.shapes(max_n, 3):
+        allc = c06.fragment_cards(shape)
+        for cards in (allc if len(allc) <= 4 else rnd.sample(allc, 4)):
+            for code in range(len(c09.AFM_CTCS)):
+                for block in (0, 1 + rnd.randrange(6)):
+                    args = [shape, cards, code, block]
+                    res['instances'] += 1
+                    res['native_runs'] += 1
+                    res['nontrivial'] += 1
+                    bad = replay_afm_ref(*args)
+                    if bad:
+                        res['violations'].append({'label': 'afm-reference-document', 'detail': bad[0][:600], 'replay_func': 'replay_afm_ref', 'replay_args': args})
+                        if len(res['violations']) >= 4:
+                            return res
+                    res['sample'] = {'shape': R.shape_str(shape), 'cards': cards, 'constraints': c09.AFM_CTCS[code], 'block': block}
+    return res
+
+
 def wf_glencoe(shape, cards, code) -> bool:
     m = c08.make(shape, cards, ctc_code=code)
     d = glencoe_to_json(m)
@@ -481,6 +540,7 @@ def batches(tier, seed):
     st = nt // 14 + 1
     b += [('batch_trees', [lo, lo + st, full]) for lo in range(0, nt, st)]
     b.append(('batch_json_ref', [4 if tier == 'quick' else 5, seed]))
+    b.append(('batch_afm_ref', [4 if tier == 'quick' else 5, seed]))
     return b
 
 
